@@ -13,6 +13,7 @@ real ≠ gen is a broken correspondence; real ≠ spec is a failing input of the
 """
 from __future__ import annotations
 
+import math
 from fractions import Fraction as F
 
 import common
@@ -361,3 +362,59 @@ def float_duality_boundary(chk, n):
                          dict(cell=[alt, ev, ut], confidence_level=cl, n=[nc, nt], df=float(df), statistic=float(r.statistic),
                               critical=float(crit), pvalue=float(r.pvalue), ci=[lo, hi], seed=chk.seed, case=k))
                 break
+
+
+def narrow_ints(chk, n, what: str, kinds=("pandas", "polars", "polars-lazy", "pyarrow")):
+    """The same logical data with its integer columns stored in a NARROW integer type (int32 / int16 / uint8, values
+    whose squares, products or per-variant sums exceed the range of that type) must give what the float64 copy gives:
+    arithmetic carried out in the column's own dtype wraps around silently."""
+    import numpy as np
+    import backends
+    import tea_tasting as tt
+    rng = chk.rng
+    fields = ("control", "treatment", "effect_size", "effect_size_ci_lower", "effect_size_ci_upper", "rel_effect_size",
+              "pvalue", "statistic")
+    for i in range(n):
+        nprng = np.random.default_rng(rng.randint(0, 2**31))
+        dt, lo, hi, rows = [("int32", 40000, 900000, 600), ("int16", 150, 30000, 300), ("uint8", 20, 250, 400),
+                            ("int32", 900000, 2000000, 5000)][i % 4]          # the last: per-variant SUMS exceed 2**31
+        variant = [int(v) for v in nprng.integers(0, 2, rows)]
+        variant[:4] = [0, 0, 1, 1]
+        x = nprng.integers(lo, hi, rows)
+        y = nprng.integers(max(1, lo // 2), hi, rows)
+        c = (0.5 * x + nprng.integers(0, max(2, (hi - lo) // 4), rows)).astype(np.int64)
+        c = np.clip(c, 0, hi)
+        cols = {"variant": variant, "x": x.tolist(), "y": y.tolist(), "c": c.tolist()}
+        alt, ev, ut = CELLS[i % len(CELLS)]
+        kw = dict(alternative=alt, equal_var=ev, use_t=ut)
+        metrics = dict(mean=tt.Mean("x", **kw), mean_cov=tt.Mean("x", "c", **kw), ratio=tt.RatioOfMeans("x", "y", **kw))
+        narrow = backends.make_inputs(cols, kinds, dtypes={"x": dt, "y": dt, "c": dt})
+        wide = backends.make_inputs({k: ([float(v) for v in vs] if k != "variant" else vs) for k, vs in cols.items()},
+                                    ("pyarrow",))["pyarrow"]
+        try:
+            ref = tt.Experiment(metrics).analyze(wide)
+        except Exception as ex:  # noqa: BLE001
+            chk.fail(f"{what}: analysis of float64 data raised", dict(dtype="float64", error=repr(ex)))
+            continue
+        for kind, data in narrow.items():
+            chk.case(("narrow-int", dt, kind, alt, ev, ut))
+            chk.branch("dtype:" + dt)
+            inp = dict(dtype=dt, input=kind, rows=rows, value_range=[lo, hi], options=kw, seed=chk.seed, case=i)
+            try:
+                res = tt.Experiment(metrics).analyze(data)
+            except Exception as ex:  # noqa: BLE001
+                chk.fail(f"{what}: analysis raised on {dt} columns", dict(input=inp, error=repr(ex)))
+                continue
+            bad = None
+            for m in metrics:
+                for f in fields:
+                    a, b = float(getattr(res[m], f)), float(getattr(ref[m], f))
+                    if not (a == b or (math.isnan(a) and math.isnan(b)) or abs(a - b) <= 1e-7 * max(abs(a), abs(b)) + 1e-12):
+                        bad = (m, f, a, b)
+                        break
+                if bad:
+                    break
+            if bad:
+                chk.fail(f"{what}: the same values stored as {dt} give a different result than stored as float64 "
+                         "(arithmetic in the column's own integer type wraps around)",
+                         dict(input=inp, metric=bad[0], field=bad[1], got=bad[2], expected=bad[3]))
